@@ -437,6 +437,16 @@ class Interp:
             raise _Continue()
         elif isinstance(st, ast.Raise):
             raise AnalysisError(f"{FILE}:{st.lineno}: the interpreted path of {self.fn.name} raises unconditionally")
+        elif isinstance(st, ast.Try) and all(self.only_raises(h.body) for h in st.handlers):
+            # the map is what the no-exception path computes: body; else; finally (handlers only re-raise).  A return
+            # inside the protected region still runs the finally block.
+            try:
+                self.block(st.body)
+                self.block(st.orelse)
+            except (_Return, _Break, _Continue):
+                self.block(st.finalbody)
+                raise
+            self.block(st.finalbody)
         elif isinstance(st, (ast.While, ast.Try, ast.With)):
             raise AnalysisError(f"{FILE}:{st.lineno}: control flow in {self.fn.name} is not supported by the sign interpreter")
         else:
@@ -1994,6 +2004,9 @@ def inertiafromgeom_rule(res, mod, actx, body, ipos_written):
         if s["aug"]:
             raise AnalysisError(f"{FILE}:{s['line']}: augmented store to compiler.{IFG} is not interpreted")
         nm = enumerator(s["val"])
+        if nm is None and unwrap(s["val"]).const is NC and ("attr", IFG) in unwrap(s["val"]).deps:
+            nm = ("?", "whatever value compiler.%s had before (a saved copy is written back), which may be %s" % (
+                IFG, " / ".join(sorted(set(enum) - set(admissible)))))
         if nm is None:
             raise AnalysisError(f"{FILE}:{s['line']}: the value stored to compiler.{IFG} is not a constant the checker can name")
         good = nm in admissible
